@@ -255,8 +255,27 @@ class WireModel:
                           payload=payload, circuit_key=ck)
         if name in ("CloseCircuit", "DisableSimulator"):
             m.circuits[far] = "closed"
-        return Expect("forward", "", direction=direction, far=far, payload=payload, parsed=parsed, name=name,
+        kind = "forward"
+        if payload in self.world.corrupted:
+            # body damaged in flight: may be discarded as undecodable or passed through untouched
+            kind = "either"
+        return Expect(kind, "", direction=direction, far=far, payload=payload, parsed=parsed, name=name,
                       circuit_key=ck)
+
+
+def only_snan_quieting(a: bytes, b: bytes) -> bool:
+    """True iff b differs from a only where a little-endian F32 signalling NaN had its quiet bit set."""
+    if len(a) != len(b) or a == b:
+        return False
+    for i in range(len(a)):
+        if a[i] == b[i]:
+            continue
+        if i + 1 >= len(a):
+            return False
+        if not (b[i] == a[i] | 0x40 and a[i] & 0x80 and not a[i] & 0x40 and a[i + 1] & 0x7F == 0x7F
+                and a[i + 1] == b[i + 1]):
+            return False
+    return True
 
 
 def world_snapshot(world: UdpWorld):
@@ -319,6 +338,11 @@ class TransparencyOracle:
 
     def _violate(self, kind, **detail):
         if not self.stopped:
+            if kind.endswith("/snan-quieted"):
+                # narrow, recorded finding: keep checking the rest of the run
+                if not any(v["kind"] == kind for v in self.res.violations):
+                    self.res.violate(kind, **detail)
+                return
             self.res.violate(kind, **detail)
             self.stopped = True
 
@@ -363,6 +387,15 @@ class TransparencyOracle:
             for e in a.emissions:
                 e.meta["unjudged"] = True
             return
+        if exp.kind == "either":
+            if a.emissions:
+                exp.kind = "forward"
+                a.escaped = None
+                self.res.probe("corrupt_forwarded")
+            else:
+                exp.kind = "discard"
+                exp.reason = "corrupted body"
+                self.res.probe("corrupt_discarded")
         if exp.kind == "discard":
             self.discarded += 1
             self.res.fault("discard:" + exp.reason.replace(" ", "_"))
@@ -392,6 +425,7 @@ class TransparencyOracle:
                 return
         rewritable = exp.name in ("PacketAck", "StartPingCheck") and self._has_injections(exp)
         matches = []
+        others = []
         for e in ems:
             try:
                 if e.dst == v.addr:
@@ -406,9 +440,17 @@ class TransparencyOracle:
             if same and dir_e == exp.direction:
                 matches.append((e, pe, payload_e))
             else:
-                # emitted while handling this datagram but not a copy of it: proxy-originated
-                self.res.probe("proxy_originated_in_window")
-                self._note_proxy_originated(e)
+                others.append((e, pe, payload_e, dir_e))
+        if not matches:
+            # no exact copy: a single same-type datagram in the same direction is the (altered) copy
+            alt = [o for o in others if o[3] == exp.direction and o[1].msg_key == pin.msg_key]
+            if len(alt) == 1:
+                matches.append(alt[0][:3])
+                others.remove(alt[0])
+        for o in others:
+            # emitted while handling this datagram but not a copy of it: proxy-originated
+            self.res.probe("proxy_originated_in_window")
+            self._note_proxy_originated(o[0])
         if len(matches) != 1:
             return self._violate(f"{self.prop}/forward/count", name=exp.name, direction=exp.direction,
                                  emitted=len(matches), others=len(ems) - len(matches), flags=pin.flags)
@@ -437,6 +479,8 @@ class TransparencyOracle:
             return self._violate(f"{self.prop}/forward/extra", name=exp.name)
         if not rewritable:
             if pout.body_plain != pin.body_plain:
+                if only_snan_quieting(pin.body_plain, pout.body_plain):
+                    return self._violate(f"{self.prop}/forward/snan-quieted", name=exp.name)
                 return self._violate(f"{self.prop}/forward/content", name=exp.name, direction=exp.direction,
                                      body_in=pin.body_plain.hex()[:200], body_out=pout.body_plain.hex()[:200])
             if self.byte_exact:
@@ -467,6 +511,32 @@ def rand_fate(rng: random.Random, p_delay: float, p_dup: float, p_drop: float = 
     if rng.random() < p_drop:
         f["drop"] = True
     return f
+
+
+def corrupt_datagram(dg: bytes, spec: dict, body_plain: bytes, extra_len: int) -> bytes:
+    """In-flight damage to the body; flags, packet id, offset byte and message number stay valid."""
+    nl = L.msgnum_len(body_plain)
+    min_len = 6 + 2 * nl + 2 * extra_len + 1
+    kind = spec["kind"]
+    if kind == "truncate":
+        n = min(spec["n"], max(0, len(dg) - min_len))
+        return dg[:len(dg) - n] if n else dg
+    if kind == "extend":
+        return dg + bytes.fromhex(spec["hex"])
+    if kind == "setbyte":
+        if len(dg) <= min_len:
+            return dg
+        i = min_len + int(spec["frac"] * (len(dg) - min_len))
+        i = min(i, len(dg) - 1)
+        b = bytearray(dg)
+        b[i] = spec["v"]
+        return bytes(b)
+    if kind in ("rezero", "rezero_wrap"):
+        if not dg[0] & L.ZEROCODED:
+            return dg
+        coded = L.zero_encode_noncanonical(body_plain, 1 if kind == "rezero_wrap" else 0)
+        return dg[:6] + coded
+    raise ValueError(kind)
 
 
 class Driver:
@@ -539,6 +609,12 @@ class Driver:
         acks = endpoint.pick_acks(flow, nacks, reack=st.get("reack", False)) if nacks else []
         flags = self._flags(st)
         dg = L.build_datagram(flags, pid, len(extra), body, acks)
+        if st.get("corrupt") and not acks:
+            dg2 = corrupt_datagram(dg, st["corrupt"], body, len(extra))
+            if dg2 != dg:
+                dg = dg2
+                self.world.corrupted.add(dg)
+                self.res.fault("corrupt:" + st["corrupt"]["kind"])
         endpoint.sent.setdefault(flow, []).append({
             "pid": pid, "flags": flags, "body": body, "acks": acks, "name": name,
             "datagram_resent": L.build_datagram(flags | L.RESENT, pid, len(extra), body, ()),
